@@ -221,9 +221,9 @@ package bip39
 //@   ensures [C09] reject: implies(!validCount(length), result == "" && is(err, ErrWordLen) && pos(cryptoRander) == p0)
 //@   ensures [C06] short: implies(validCount(length) && !enough, result == "" && err != nil)
 //@   ensures [C09,C02,C06] success: implies(validCount(length) && enough, err == nil)
-//@   ensures [C02,C06,C07] enc: implies(err == nil, validCount(length) && result == join(ws, sepOf(lang)) && slen(ws) == length && blen(ent) == need)
-//@   ensures [C02,C06,C07] words: implies(err == nil && supported(lang), forall(j, 0, length, sat(ws, j) == lst(lang, digit(V(ent), length-1-j))))
-//@   ensures [C06,C07] source: implies(err == nil, ent == rseg(cryptoRander, p0, need) && pos(cryptoRander) == p0 + need)
+//@   ensures [C02,C05,C06,C07] enc: implies(err == nil, validCount(length) && result == join(ws, sepOf(lang)) && slen(ws) == length && blen(ent) == need)
+//@   ensures [C02,C05,C06,C07] words: implies(err == nil && supported(lang), forall(j, 0, length, sat(ws, j) == lst(lang, digit(V(ent), length-1-j))))
+//@   ensures [C05,C06,C07] source: implies(err == nil, ent == rseg(cryptoRander, p0, need) && pos(cryptoRander) == p0 + need)
 //@   ensures [C09] nonempty: implies(err == nil, result != "")
 
 //@ func MnemonicToSeed
